@@ -474,7 +474,21 @@ func c20Run(env *storeEnv, sc c20Scenario, work string) (int, int, error) {
 			return len(states), nontrivial, fmt.Errorf("HARNESS-SELFTEST the storing child finished normally but its answer could not be read: %s", trunc(sr.Stderr, 300))
 		}
 		if sr.Exit != 0 {
-			return len(states), nontrivial, fmt.Errorf("scenario %s: storing again after a crash terminated the process (exit %d): %s", sc.Name, sr.Exit, trunc(sr.Stderr, 300))
+			// the storing process ended (the statement says what a later *retrieve* returns, not how a later store may give
+			// up): store state by state, one child each, and read a child that died as a store that did not succeed
+			sr.Res = nil
+			for _, rq := range sreqs {
+				one := env.run([]childReq{rq})
+				switch {
+				case one.Exit == 0 && len(one.Res) == 1:
+					sr.Res = append(sr.Res, one.Res[0])
+				case one.Exit == 0:
+					return len(states), nontrivial, fmt.Errorf("HARNESS-SELFTEST the storing child finished normally but its answer could not be read: %s", trunc(one.Stderr, 300))
+				default:
+					hx.Class("post-crash_store_ended_the_process")
+					sr.Res = append(sr.Res, childRes{Err: fmt.Sprintf("the storing process ended with status %d", one.Exit)})
+				}
+			}
 		}
 		rr := env.run(rreqs)
 		if rr.Exit == 0 && len(rr.Res) != len(follow)*perState {
